@@ -4,6 +4,8 @@ The case machinery (job -> Coq case terms -> codes) is shared with C11 (harness/
 from __future__ import annotations
 
 import json
+import posixpath
+import re
 from concurrent.futures import ThreadPoolExecutor
 
 from lib import (Check, COMMON_TRUSTED, NCPU, VERIF, coq_list, coq_str, known_for, parse_nat_list, run_coq_files,
@@ -30,10 +32,15 @@ TRUSTED = [t for t in COMMON_TRUSTED if not t.startswith("MC/")] + [
     "before/after snapshots (which are compared too); os.replace/os.rename of a regular file is recorded as the two halves of "
     "Model/FS.v rename_ops (Replace dst <bytes of src>, Unlink src) - the model's crash prefixes also contain the state between "
     "the halves, which the kernel never exposes",
-    "which of the two later repairs (function tags read before the first mutation: fixes/C10-function-tags-read-first.patch; "
-    "jmc.txt written through jmc.txt.tmp + os.replace: fixes/C11-atomic-cert.patch) the tree under test contains is detected by "
-    "two witness builds (detect_variant); the model is run with the matching flags (theorems hold for every `sound` variant), "
-    "the behaviour of a tree without a repair is reported as its known finding",
+    "which of the later repairs (function tags read before the first mutation: fixes/C10-function-tags-read-first.patch; "
+    "jmc.txt written through jmc.txt.tmp + os.replace: fixes/C11-atomic-cert.patch; #override / #link namespaces validated: "
+    "fixes/C10-reject-non-namespace-override.patch; resource paths validated: fixes/C10-reject-resource-path-outside-folder.patch; "
+    "stale own entry removed from a surviving tick.json: fixes/C11-stale-own-tick-entry.patch) the tree under test contains is "
+    "detected by witness builds (detect_variant); the model is run with the matching flags (theorems hold for every `sound` "
+    "variant), the behaviour of a tree without a repair is reported as its (pending) finding",
+    "a run whose header / resource names contain `..`, an empty or `.` segment or a separator on a tree WITHOUT the matching "
+    "check is outside the model (a model path is a list of child names): there the territory is evaluated in plain Python on the "
+    "real snapshots (escape_verdict), incl. a folder NEXT TO the output directory",
     "function-tag files are compared in parsed form ({\"values\": [...]} in json.dump(indent=4) layout = Tag, anything "
     "unparsable = Raw); tag files with extra keys, #credit, custom pack.mcmeta entries and non-default pack formats "
     "other than 48/26 are not generated",
@@ -56,22 +63,49 @@ def run_jobs(jobs: list[dict], chunk: int = 6, timeout: int = 900) -> list[dict]
 _VARIANT: dict = {}
 
 
+LOCATIONS = ('Predicate.locations(name="%s", predicate={"condition":"minecraft:random_chance","chance":0.5}, '
+             'xMin=0, xMax=0, yMin=0, yMax=0, zMin=0, zMax=0);')
+
+
 def detect_variant() -> dict:
-    """Two witness builds on the tree under test (lib.REPO):
-    tags_early  - a malformed foreign data/minecraft/tags/function/load.json: the build stops with the JMCBuildError of
-                  read_func_tag WITHOUT having performed a mutation (else: after jmc.txt was written);
-    cert_atomic - a plain first build moves jmc.txt.tmp over jmc.txt with os.replace (else: writes jmc.txt in place)."""
+    """Witness builds on the tree under test (lib.REPO):
+    tags_early    - a malformed foreign data/minecraft/tags/function/load.json: the build stops with the JMCBuildError of
+                    read_func_tag WITHOUT having performed a mutation (else: after jmc.txt was written);
+    cert_atomic   - a plain first build moves jmc.txt.tmp over jmc.txt with os.replace (else: writes jmc.txt in place);
+    ns_checked    - `#override ".."`, `#link ".."` or `#link <own namespace>` is a header error (probed on an empty output
+                    directory, where nothing is deleted); ANY of the three rejected = the tree has the check, and then all
+                    non-namespace arguments must be rejected (a hole is a VIOLATION);
+    paths_checked - Predicate.locations(name="a/../b") (a JSON path) or jmc.txt PRIVATE=a/../b (function paths) is a build error
+                    (else: predicate/b.json, function/b/... are written); ANY of the two rejected = the tree has the check;
+    tick_refresh  - a surviving foreign tick.json naming ns:__tick__ is rewritten without that entry by a build without
+                    tick function (else: left alone)."""
     if _VARIANT:
         return _VARIANT
     base = dict(ns="ns", pack_format="48", desc="d", out_exists=True, copy_src=None)
     jobs = [dict(base, init=[["data/minecraft/tags/function/load.json", '{"values": [']], builds=[dict(src=fn("g"), header=None)]),
-            dict(base, init=[], builds=[dict(src=fn("g"), header=None)])]
-    flags = dict(tags_early=False, cert_atomic=False, probe_ok=False)
+            dict(base, init=[], builds=[dict(src=fn("g"), header=None)]),
+            dict(base, init=[], builds=[dict(src=fn("g"), header='#override ".."')]),
+            dict(base, init=[], builds=[dict(src=fn("g"), header='#link ".."')]),
+            dict(base, init=[], builds=[dict(src=fn("g"), header='#link ns')]),
+            dict(base, init=[], builds=[dict(src=LOCATIONS % "a/../b", header=None)]),
+            dict(base, init=[["data/ns/jmc.txt", "\n".join(f"{k}={'a/../b' if k == 'PRIVATE' else v}" for k, v in DEFAULT_CERT)]],
+                 builds=[dict(src=fn("branch", 'if ($x == 1) { say "a"; say "b"; }'), header=None)]),
+            dict(base, init=[["data/minecraft/tags/function/tick.json", canon(["ns:__tick__", "other:t"])]],
+                 builds=[dict(src=fn("g"), header=None)])]
+    flags = dict(tags_early=False, cert_atomic=False, ns_checked=False, paths_checked=False, tick_refresh=False, probe_ok=False)
     try:
-        r_tag, r_cert = run_jobs(jobs)
+        r_tag, r_cert, r_ov, r_lk, r_own, r_path, r_fpath, r_tick = run_jobs(jobs)
         b_tag, b_cert = r_tag["builds"][0], r_cert["builds"][0]
         flags["tags_early"] = real_result(b_tag) == "RTagErr" and not b_tag["trace"] and b_tag["before"] == b_tag["after"]
         flags["cert_atomic"] = any(ev[0] == "replace" and ev[1] == "data/ns/jmc.txt" for ev in b_cert["trace"])
+        rejected = [real_result(r["builds"][0]) == "RHeaderErr" for r in (r_ov, r_lk, r_own)]
+        flags["ns_checked"] = any(rejected)
+        flags["ns_checked_probes"] = dict(zip(("override_dotdot", "link_dotdot", "link_own"), rejected))
+        prej = [real_result(r["builds"][0]) == "RBuildErr" for r in (r_path, r_fpath)]
+        flags["paths_checked"] = any(prej)
+        flags["paths_checked_probes"] = dict(zip(("json_name", "private_function_folder"), prej))
+        tick_after = dict(r_tick["builds"][0]["after"]).get("data/minecraft/tags/function/tick.json")
+        flags["tick_refresh"] = tick_after == canon(["other:t"])
         flags["probe_ok"] = real_result(b_tag) == "RTagErr" and real_result(b_cert) == "RDone"
     except Exception as e:  # noqa  (a broken tree: the correspondence below reports it)
         flags["probe_error"] = repr(e)[:300]
@@ -82,7 +116,9 @@ def detect_variant() -> dict:
 def current_variant() -> str:
     """Coq term of the Build.variant the tree under test is compared with: [fixed] plus the detected later repairs."""
     f = detect_variant()
-    return f"(mkVariant false true true {'true' if f['tags_early'] else 'false'} {'true' if f['cert_atomic'] else 'false'})"
+    b = lambda k: "true" if f.get(k) else "false"  # noqa
+    return (f"(mkVariant false true true {b('tags_early')} {b('cert_atomic')} {b('ns_checked')} {b('paths_checked')} "
+            f"{b('tick_refresh')})")
 
 
 # ----------------------------------------------------------------------------------- Coq terms
@@ -227,6 +263,8 @@ def real_result(b: dict) -> str:
     if stage == "build":
         return "RBuildErr"
     if stage == "fs":
+        if exc[0] == "JMCBuildError" and "is not a valid resource path" in exc[1]:
+            return "RBuildErr"          # compiling.py check_resource_paths, right after DataPack.build()
         if exc[0] == "JMCBuildError" and "deleting files" in exc[1]:
             return "ROsErr"
         if exc[0] == "OSError" and "injected" in exc[1]:
@@ -244,6 +282,81 @@ def override_order(overrides: list[str], trace: list) -> list[str]:
             if len(parts) >= 2 and parts[0] == "data" and parts[1] in overrides:
                 first.setdefault(parts[1], i)
     return sorted(overrides, key=lambda o: (first.get(o, 10**9), o))
+
+
+def plain_name(seg: str) -> bool:
+    """Build.plain"""
+    return seg not in ("", ".", "..") and "/" not in seg and "\\" not in seg
+
+
+def plain_path(name: str) -> bool:
+    return all(plain_name(c) for c in name.split("/"))
+
+
+DIRECTIVE = re.compile(r'^#(override|link)\s+(?:"([^"]*)"|(\S+))\s*$', re.M)
+
+
+def header_namespaces(header: str | None) -> list[str]:
+    """arguments of the #override / #link lines of a header text"""
+    return [(m.group(2) if m.group(2) is not None else m.group(3)).replace("{OUTSIDE}", "/<the folder next to the output directory>")
+            for m in DIRECTIVE.finditer(header or "")]
+
+
+def escape_verdict(job: dict, bi: int, b: dict) -> dict | None:
+    """Plain-Python evaluation of the territory on the REAL snapshots, for runs the Coq model does not cover: a tree WITHOUT
+    the namespace / resource-path checks given an #override / #link argument or a resource name that is not a list of plain
+    names.  -> None when the run has no such input, else
+    {"escaped": [...changed paths outside the lexical territory...], "outside": bool, "finding": id | None}: `finding` is the
+    pending finding that explains EVERY escaped path, None when something else moved too (a VIOLATION)."""
+    spec, f = job["builds"][bi], b["facts"]
+    ns = job.get("ns", "ns")
+    bad_ns = [n for n in header_namespaces(spec.get("header")) if not plain_name(n)]
+    names = [n for n, _ in (f.get("functions") or []) + (f.get("jsons") or [])]
+    bad_res = [n for n in names if not plain_path(n)]
+    if not bad_ns and not bad_res:
+        return None
+    pf = f.get("pack_format") or job.get("pack_format", "48")
+    ff = f.get("ff") or ("function" if float(pf) >= 48 else "functions")
+    overrides = [o for o in header_namespaces(spec.get("header")) if plain_name(o)]
+    roots = [f"data/{ns}", "data/minecraft"] + [f"data/{o}" for o in overrides]
+    copy_paths = {r for r, _ in (f.get("copy_tree") or []) if r != "."}
+
+    def in_territory(pth: str) -> bool:
+        return (any(pth == r or pth.startswith(r + "/") for r in roots) or pth == "pack.mcmeta" or pth in copy_paths)
+    changed = describe_change(b)
+    escaped = [c for c in changed if not in_territory(c[0]) and not (c[0] in (".", "data") and c[1] == "absent" and c[2] == "dir")]
+    # where the offending names point (normalised, relative to the output directory; "../x" = next to it)
+    targets = []
+    func_names = {n for n, _ in f.get("functions") or []}
+    for n in bad_res:
+        first = n.split("/")[0]
+        if n in func_names:
+            rel = (f"data/{first}/{ff}/{n[len(first) + 1:]}.mcfunction" if first in overrides + bad_ns else f"data/{ns}/{ff}/{n}.mcfunction")
+        else:
+            rel = f"data/{first}/{n[len(first) + 1:]}.json" if first in overrides + bad_ns else f"data/{ns}/{n}.json"
+        targets.append(posixpath.normpath(rel))
+    del_roots = [posixpath.normpath("data/" + n) if not n.startswith("/") else None for n in bad_ns]
+
+    def reasons(pth: str) -> set:
+        out = set()
+        for t in targets:
+            if pth == t or t.startswith(pth + "/"):          # the file, or an ancestor folder created for it
+                out.add("C10-resource-path-escapes")
+        for r in del_roots:
+            if r is not None and (r == "." or r.startswith("..") or pth == r or pth.startswith(r + "/")):
+                out.add("C10-override-namespace-escapes")
+        return out
+    why = [reasons(c[0]) for c in escaped]
+    if b.get("outside_changed"):
+        why.append(({"C10-resource-path-escapes"} if any(t.startswith("../") for t in targets) else set()) |
+                   ({"C10-override-namespace-escapes"} if any(r is None or r.startswith("..") for r in del_roots) else set()))
+    finding = None
+    if why and all(why):
+        common = set.intersection(*why)
+        # one defect that explains every escaped path; else (both kinds of input in one run) each path by one of them
+        finding = sorted(common)[0] if common else "+".join(sorted(set.union(*why)))
+    return dict(escaped=escaped, outside=bool(b.get("outside_changed")), finding=finding, bad_namespaces=bad_ns,
+                bad_resource_paths=bad_res, targets=targets)
 
 
 def case_term(job: dict, bi: int, b: dict, variant: str | None = None, ov_order: list[str] | None = None) -> tuple[str, dict]:
@@ -278,6 +391,8 @@ def case_term(job: dict, bi: int, b: dict, variant: str | None = None, ov_order:
         copy = f"(Some {coq_list(items)})"
     else:
         copy = "None"
+    if not detect_variant().get("ns_checked") and not all(plain_name(o) for o in overrides):
+        raise Unmodelled(f"override namespaces {overrides!r}")
     hdr = f"(mkHdr {coq_list(statics)} {coq_list(coq_str(o) for o in overrides)} {copy} {'true' if f.get('nometa') else 'false'})"
     res = real_result(b)
     stage = b["stage"]
@@ -285,14 +400,16 @@ def case_term(job: dict, bi: int, b: dict, variant: str | None = None, ov_order:
         out = "FailHeader"
     elif stage in ("cert", "lex", "start"):
         out = "FailLex"
-    elif stage == "build":
+    elif stage == "build" or (stage == "fs" and res == "RBuildErr"):
         out = "FailBuild"
     else:
         if f.get("custom_meta"):
             raise Unmodelled("custom pack.mcmeta entries")
-        for name, _ in f["functions"] + f["jsons"]:
-            if any(c in ("", ".", "..") for c in name.split("/")):
-                raise Unmodelled(f"resource path {name!r}")
+        if not detect_variant().get("paths_checked"):
+            # a model path is a list of child names: without the check of the resource paths a `..` reaches the OS
+            for name, _ in f["functions"] + f["jsons"]:
+                if not plain_path(name):
+                    raise Unmodelled(f"resource path {name!r}")
         funcs = coq_list(f"({coq_list(coq_str(c) for c in n.split('/'))}, {coq_str(t)})" for n, t in f["functions"])
         jsons = coq_list(f"({coq_list(coq_str(c) for c in n.split('/'))}, {coq_str(t)})" for n, t in f["jsons"] if t is not None)
         out = (f"(Success (mkOutput {funcs} {jsons} {'true' if f['tick'] else 'false'} "
@@ -346,18 +463,32 @@ VALID_PARTS = [
 ]
 OVERRIDE_PARTS = {"foo": [fn("foo.h"), 'new advancement(foo.adv) {"b":2}', fn("foo")], "bar": [fn("bar.x.y")],
                   "minecraft": [fn("minecraft.mcf")], "ns": [fn("ns.q")]}
+# names taken from a string argument become a path segment of the generated file (Predicate.locations -> DataPack.add_json)
+ESCAPING_NAMES = ["../../foreign/predicate/x", "../../../../outside/x", "../../../pack.mcmeta", "a/../b", "./c", "a//b", "..", "/abs/x",
+                  "sub/../../../ns2/predicate/y"]
+FINE_NAMES = ["plain", "nested/name", "a.b", "x-y_z/w"]
 FAIL_LEX = ['function g() { say "g" }', 'function f( { }', 'say "top";;;; function () {}']
 FAIL_BUILD = ['function f() { nope(); }']
 FAIL_HEADER = ['#bogus', '#static "does_not_exist"', '#override']
+
+
+ESCAPING_NAMESPACES = ['".."', '""', '"."', '"a/../.."', '"../.."', '"../../outside"', '"{OUTSIDE}"', '"foo/../bar"', '"foo/"', '"../other"',
+                       '"Foo"']
 
 
 def gen_project(rng, tree_has: dict) -> dict:
     """One compile attempt: {"src", "header", "kind"}; tree_has says which static folders can exist."""
     r = rng.random()
     overrides = [o for o in ("foo", "bar", "minecraft", "ns") if rng.random() < (0.3 if o in ("foo", "bar") else 0.06)]
-    hl = [f"#override {o}" for o in overrides]
+    # every directive that feeds Header.namespace_overrides: #override and #link (the own namespace too: `#override ns` is a
+    # header error since fixes/C08-reject-own-namespace-override.patch, `#link ns` until fixes/C10-reject-non-namespace-override.patch)
+    hl = [f"#{'link' if rng.random() < 0.3 else 'override'} {o}" for o in overrides]
+    escape = None
+    if rng.random() < 0.07:
+        escape = rng.choice(ESCAPING_NAMESPACES)
+        hl.append(f"#{'link' if rng.random() < 0.3 else 'override'} {escape}")
     for st, ok in tree_has.items():
-        if ok and not st.startswith("__") and rng.random() < 0.45:
+        if ok and not st.startswith("__") and rng.random() < (0.25 if st in ROOT_STATICS else 0.45):
             hl.append(f'#static "{st}"')
     if tree_has.get("__copy__") and rng.random() < 0.35:
         hl.append('#copy "cp"')
@@ -367,19 +498,39 @@ def gen_project(rng, tree_has: dict) -> dict:
     parts = [p for p in VALID_PARTS if rng.random() < 0.35] or [fn("f")]
     for o in overrides:
         parts += [p for p in OVERRIDE_PARTS[o] if rng.random() < 0.6]
+    if rng.random() < 0.08:
+        parts.append(LOCATIONS % rng.choice(ESCAPING_NAMES))
+    elif rng.random() < 0.08:
+        parts.append(LOCATIONS % rng.choice(FINE_NAMES))
     rng.shuffle(parts)
     kind = "valid"
-    if r < 0.10:
+    p_fail = 0.6 if tree_has.get("__oddcert__") else 0.24       # failing compiles over a certificate with hand-made bytes
+    if r < p_fail * 10 / 24:
         kind, parts = "lex", parts + [rng.choice(FAIL_LEX)]
-    elif r < 0.17:
+    elif r < p_fail * 17 / 24:
         kind, parts = "build", parts + [rng.choice(FAIL_BUILD)]
-    elif r < 0.24:
+    elif r < p_fail:
         kind, hl = "header", hl + [rng.choice(FAIL_HEADER)]
     return dict(src="\n".join(parts), header="\n".join(hl) if hl else None, kind=kind)
 
 
 def canon(values):
     return json.dumps({"values": values}, indent=4)
+
+
+# statics that ARE a folder the build deletes
+ROOT_STATICS = (".", "../minecraft", "../foo")
+# certificates a user (or an older JMC) left with bytes that make_cert would not write: a failed compile must keep them
+ODD_CERTS = [
+    "\n".join(f"{k}={v}" for k, v in DEFAULT_CERT) + "\n",                                    # trailing newline
+    "\n".join(f"{k} = {v}" for k, v in DEFAULT_CERT),                                          # blanks around "="
+    "LOAD=__load__\nTICK=__tick__\nPRIVATE=__private__",                                      # older version: three keys
+    "\n\nLOAD=init\n\nTICK=loop\nPRIVATE=priv\nVAR=v\nINT=i\nSTORAGE=st\n\n",                  # custom names, blank lines
+    "LOAD=init\nTICK=loop\nPRIVATE=priv\nVAR=v\nINT=i\nSTORAGE=st\nthis line is not a pair",    # malformed line: every custom name is dropped
+    "STORAGE=st\nINT=i\nVAR=v\nPRIVATE=priv\nTICK=loop\nLOAD=init",                            # another key order
+    "\n".join(f"{k}={v}" for k, v in DEFAULT_CERT) + "\nEXTRA=1",                              # a key JMC does not know
+    "LOAD=__load__\nTICK=__tick__\nPRIVATE=../../../zz\nVAR=__variable__\nINT=__int__\nSTORAGE=__storage__",   # a private folder that leaves data/<ns>
+]
 
 
 def gen_init(rng) -> tuple[dict, dict]:
@@ -391,11 +542,15 @@ def gen_init(rng) -> tuple[dict, dict]:
         init += [["readme.txt", "hi"], ["data/other/function/a.mcfunction", "say a"]]
         if rng.random() < 0.5:
             init += [["pack.mcmeta", '{"pack":{"pack_format":1,"description":"old"}}'], ["data/other/tags/function/t.json", canon(["other:a"])]]
-    nsk = rng.choice(["absent", "absent", "cert", "cert", "cert", "customcert", "badcert", "nocert", "emptydir"])
-    if nsk in ("cert", "customcert", "badcert"):
+    nsk = rng.choice(["absent", "absent", "cert", "cert", "cert", "customcert", "badcert", "nocert", "emptydir", "oddcert", "oddcert",
+                      "nocert_static", "nocert_static"])
+    if nsk in ("cert", "customcert", "badcert", "oddcert"):
         cert = {"cert": "\n".join(f"{k}={v}" for k, v in DEFAULT_CERT),
                 "customcert": "LOAD=init\nTICK=loop\nPRIVATE=priv\nVAR=v\nINT=i\nSTORAGE=st",
-                "badcert": "LOAD=__load__\nnonsense line\nTICK"}[nsk]
+                "badcert": "LOAD=__load__\nnonsense line\nTICK",
+                "oddcert": rng.choice(ODD_CERTS)}[nsk]
+        if nsk == "oddcert":
+            has["__oddcert__"] = True
         init.append(["data/ns/jmc.txt", cert])
         for item in [["data/ns/function/old.mcfunction", "say old"], ["data/ns/function/sub/deep/x.mcfunction", "say x"],
                      ["data/ns/function/sub/y.mcfunction", "say y"], ["data/ns/advancement/q.json", "{}"],
@@ -407,8 +562,23 @@ def gen_init(rng) -> tuple[dict, dict]:
             has["keep"] = True
             if rng.random() < 0.3:
                 init += [["data/ns/keep/sub/empty", None]]
+        if rng.random() < 0.2:
+            has["."] = True                        # `#static "."`: the static IS the namespace folder
     elif nsk == "nocert":
         init += [["data/ns/function/mine.mcfunction", "say hand written"], ["data/ns/notes.txt", "user data"]]
+    elif nsk == "nocert_static":
+        # a namespace folder WITHOUT jmc.txt whose direct children only LEAD to (or are) #static folders, with hand-written
+        # files next to the static folder that carry the names of generated files: refusal must not depend on the statics
+        shape = rng.choice(["lib", "lib", "keep", "both"])
+        if shape in ("lib", "both"):
+            init += [["data/ns/function/lib/hand.mcfunction", "say lib"], ["data/ns/function/g.mcfunction", "say hand-written g"],
+                     ["data/ns/function/f.mcfunction", "say hand-written f"]]
+            has["function/lib"] = True
+        if shape in ("keep", "both"):
+            init += [["data/ns/keep/a.txt", "precious"]]
+            has["keep"] = True
+        if shape == "keep" and rng.random() < 0.5:
+            init += [["data/ns/keep/sub/b.txt", "precious too"]]
     elif nsk == "emptydir":
         init.append(["data/ns", None])
     mck = rng.choice(["absent", "absent", "tags", "tags", "stale", "malformed", "novalues", "other"])
@@ -428,6 +598,8 @@ def gen_init(rng) -> tuple[dict, dict]:
     if rng.random() < 0.35:
         init += [["data/minecraft/keep/m.txt", "vanilla override kept by hand"]]
         has["../minecraft/keep"] = True
+    if any(p.startswith("data/minecraft/") for p, _ in init) and rng.random() < 0.25:
+        has["../minecraft"] = True               # the static IS a deleted folder
     if mck in ("tags", "stale", "malformed", "novalues") and rng.random() < 0.3:
         has["../minecraft/tags"] = True          # a #static that shields the function-tag files themselves
     if rng.random() < 0.4:
@@ -435,6 +607,8 @@ def gen_init(rng) -> tuple[dict, dict]:
         if rng.random() < 0.5:
             init += [["data/foo/keepfoo/z.txt", "z"]]
             has["../foo/keepfoo"] = True
+        if rng.random() < 0.3:
+            has["../foo"] = True                  # the static IS the folder of an (possibly) overridden namespace
     copy_src = None
     if rng.random() < 0.45:
         copy_src = [["top.txt", "T"]]
@@ -590,6 +764,54 @@ def fixed_histories() -> list[dict]:
              builds=[dict(src=B + "\n" + fn("minecraft.mcf"), header="#override minecraft"),
                      dict(src=B + "\n" + fn("minecraft.mcf"), header='#override minecraft\n#static "keep"')]),
     ]
+    hs += triage_histories()
+    return hs
+
+
+def triage_histories() -> list[dict]:
+    """Hand-written histories for the inputs of reports/C10C11-triage.md (always run, quick tier too)."""
+    cert = "\n".join(f"{k}={v}" for k, v in DEFAULT_CERT)
+    A = "\n".join([fn("__tick__", 'say "t";'), fn("f"), 'new advancement(x.y) {"a":1}'])
+    B = fn("g")
+    BR = fn("branch", 'if ($x == 1) { say "a"; say "b"; } else { say "c"; say "d"; }')
+    base = dict(ns="ns", pack_format="48", desc="d", out_exists=True, copy_src=None)
+    built = [["data/ns/jmc.txt", cert], ["data/ns/function/old.mcfunction", "o"], ["data/other/function/a.mcfunction", "say a"],
+             ["readme.txt", "hi"], ["data/foreign/predicate/keep.json", "{}"]]
+    hs = []
+    # 1. a generated resource whose NAME comes from a string argument / from jmc.txt and leaves data/<ns>
+    for name in ("../../foreign/predicate/x", "../../../../outside/x", "a/../b", "nested/fine"):
+        hs.append(dict(base, init=list(built), builds=[dict(src=B + "\n" + LOCATIONS % name, header=None), dict(src=B, header=None)]))
+    hs.append(dict(base, init=[["data/ns/jmc.txt", cert.replace("__private__", "../../../zz")], ["readme.txt", "hi"]],
+                   builds=[dict(src=BR, header=None), dict(src=B, header=None)]))
+    # 2. #override / #link arguments that are not a namespace: the deleted "folder" is the output / data directory or beyond
+    for arg in ('".."', '""', '"."', '"../../outside"', '"{OUTSIDE}"', '"a/../.."', '"../other"'):
+        for d in ("override", "link") if arg in ('".."', '""') else ("override",):
+            hs.append(dict(base, init=list(built), builds=[dict(src=B, header=f"#{d} {arg}"), dict(src=B, header=None)]))
+    # 3. every directive that feeds namespace_overrides, own namespace included
+    hs.append(dict(base, init=list(built), builds=[dict(src=A + "\n" + fn("ns.q"), header="#link ns"), dict(src=B, header="#link ns")]))
+    hs.append(dict(base, init=list(built) + [["data/foo/function/old.mcfunction", "o"]],
+                   builds=[dict(src=A + "\n" + fn("foo.q"), header="#link foo"), dict(src=B, header="#link foo\n#override bar"),
+                           dict(src=B, header=None)]))
+    # 6a. namespace folder without jmc.txt that holds only folders leading to #static folders, hand-written siblings
+    nocert = [["data/ns/function/lib/hand.mcfunction", "say lib"], ["data/ns/function/g.mcfunction", "say hand-written g"]]
+    hs.append(dict(base, init=list(nocert), builds=[dict(src=B, header='#static "function/lib"'), dict(src=B, header=None)]))
+    hs.append(dict(base, init=[["data/ns/keep/a.txt", "precious"]], builds=[dict(src=B, header='#static "keep"')]))
+    hs.append(dict(base, init=list(nocert) + [["data/ns/keep/a.txt", "precious"]],
+                   builds=[dict(src=B + "\n" + fn("lib.x"), header='#static "function/lib"\n#static "keep"')]))
+    # 6b. certificates with bytes make_cert would not write + a compile that fails at each stage: jmc.txt keeps its bytes
+    for i, odd in enumerate(ODD_CERTS[:7]):
+        fail = [dict(src='function g() { say "g" }', header=None), dict(src=fn("f", "nope();"), header=None), dict(src=B, header="#bogus")]
+        hs.append(dict(base, init=[["data/ns/jmc.txt", odd], ["data/ns/function/old.mcfunction", "o"]],
+                       builds=[fail[i % 3], fail[(i + 1) % 3], dict(src=BR, header=None)]))
+    # 7. #static folders that ARE a deleted folder
+    roots = [["data/ns/jmc.txt", cert], ["data/ns/function/old.mcfunction", "o"], ["data/ns/hand.txt", "h"],
+             ["data/minecraft/loot_table/x.json", "{}"], ["data/minecraft/tags/function/tick.json", canon(["other:t", "ns:__tick__"])],
+             ["data/foo/k.txt", "k"], ["data/foo/function/old.mcfunction", "o"]]
+    hs.append(dict(base, init=list(roots), builds=[dict(src=B, header='#static "../minecraft"'), dict(src=A, header='#static "../minecraft"'),
+                                                   dict(src=B, header='#static "../minecraft"')]))
+    hs.append(dict(base, init=list(roots), builds=[dict(src=B + "\n" + fn("foo.h"), header='#override foo\n#static "../foo"'),
+                                                   dict(src=B, header='#link foo\n#static "../foo"')]))
+    hs.append(dict(base, init=list(roots), builds=[dict(src=B, header='#static "."'), dict(src=A, header='#static "."\n#static "../minecraft"')]))
     return hs
 
 
@@ -678,19 +900,48 @@ def main(tier: str) -> int:
     ck = Check(PROP, tier)
     ck.cov["trusted_base"] = TRUSTED
     ck.proof(extra_targets=["Run/C10.vo"])
-    n_rand = 150 if tier == "quick" else 1200
+    n_rand = 200 if tier == "quick" else 1200
     jobs = fixed_histories() + [gen_history(ck.rng) for _ in range(n_rand)]
     recs, errs = run_histories(PROP, jobs)
     for e in errs:
         ck.violation(dict(kind="correspondence-file-failed", log=e), no_input=True)
     hist, n_ok, unmodelled, reported = {}, 0, 0, set()
     known = {f["id"]: f for f in known_for(PROP)}
+    # records whose run violates the property itself first: their history is the concrete failing input
+    recs.sort(key=lambda r: 0 if (r.get("code") or 0) & (8 | 16 | 32 | 64) else 1)
+    escapes = dict(inputs=0, harmless=0, pending=0)
     for rec in recs:
         if rec.get("error"):
             ck.violation(dict(kind="runner-error", history=rec["job"], log=rec["error"]), no_input=True)
             continue
+        verdict = escape_verdict(rec["job"], rec["bi"], rec["build"])
+        if verdict is not None:
+            escapes["inputs"] += 1
+        if rec["build"].get("outside_changed") and (verdict is None or verdict["finding"] is None):
+            rec["prop"] = PROP
+            obj = replay_obj(dict(rec, code=rec.get("code") or 0), "a folder NEXT TO the output directory was modified")
+            obj["outside"] = rec["build"].get("outside")
+            ck.violation(obj)
+            continue
         if "unmodelled" in rec:
-            unmodelled += 1
+            if verdict is None:
+                unmodelled += 1
+                continue
+            # outside the model (no namespace / resource-path check in this tree): the territory on the real snapshots
+            if not verdict["escaped"] and not verdict["outside"]:
+                escapes["harmless"] += 1
+                continue
+            fid = verdict["finding"]
+            if fid is not None and all(x in known or x in PENDING_FIXES for x in fid.split("+")):
+                escapes["pending"] += 1
+                for x in fid.split("+"):
+                    ck.known(x, (known.get(x) or PENDING_FIXES[x])["what"])
+            elif ("escape", fid) not in reported:
+                reported.add(("escape", fid))
+                rec["prop"] = PROP
+                obj = replay_obj(dict(rec, code=8), "property-violated-on-real-run (evaluated outside the model: a path that is not a list of names)")
+                obj["escape"] = verdict
+                ck.violation(obj)
             continue
         code, info = rec["code"], rec["info"]
         key = f"{info['result']}|statics={bool(info['statics'])}|ov={len(info['overrides'])}|copy={info['copy']}"
@@ -737,10 +988,31 @@ def main(tier: str) -> int:
         disagreements_checked=len([r for r in recs if r.get("code")]),
         samples=[dict(init=r["job"]["init"][:4], build=r["job"]["builds"][r["bi"]], result=r["info"]["result"],
                       n_mutations=r["build"]["n_mut"]) for r in builds[:40:8] if "info" in r],
-        variant=current_variant(), variant_probe=dict(detect_variant()),
+        variant=current_variant(), variant_probe=dict(detect_variant()), escaping_inputs=escapes,
     ))
     return ck.finish()
 
+
+# Defects demonstrated on the real code whose repair is a patch in /verif/fixes that /repo does not contain yet.  A tree WITHOUT the
+# repair (detect_variant) prints them as KNOWN-FINDING for exactly the inputs escape_verdict attributes to them; a tree WITH the
+# repair is compared with the repaired model, where the same inputs must be refused before the first mutation.
+# Integrator: after committing a patch delete its entry here - a tree without the repair is then a VIOLATION.
+PENDING_FIXES = {
+    "C10-override-namespace-escapes": dict(
+        id="C10-override-namespace-escapes", property="C10", patch="fixes/C10-reject-non-namespace-override.patch",
+        what="`#override` / `#link` take any string as a namespace: `#override \"..\"`, `\"\"`, `\".\"`, `\"../../x\"`, an absolute path make "
+             "build() run shutil.rmtree on the output directory, its data folder or a folder outside of it (foreign namespaces, loose files, "
+             "other datapacks deleted) - header_parse.py #override/#link, compiling.py overrides_folders; repaired by "
+             "fixes/C10-reject-non-namespace-override.patch",
+        match=dict(header_argument="not a plain name", every_escaped_path="at or below normpath(data/<argument>)")),
+    "C10-resource-path-escapes": dict(
+        id="C10-resource-path-escapes", property="C10", patch="fixes/C10-reject-resource-path-outside-folder.patch",
+        what="a generated resource whose name comes from a string argument or from jmc.txt (Predicate.locations(name=\"../../foreign/predicate/x\"), "
+             "PRIVATE=../../../zz) is written outside data/<namespace> (a foreign namespace, the output root, another datapack): user "
+             "function / JSON names go through convention_jmc_to_mc, DataPack.add_json / private names do not - theorem "
+             "C10_paths_lexical_refuted_hardened; repaired by fixes/C10-reject-resource-path-outside-folder.patch",
+        match=dict(resource_path="has an empty, `.` or `..` segment", every_escaped_path="the normalised target or an ancestor created for it")),
+}
 
 PROPOSED_KNOWN = {
     "C10-malformed-tag-after-mutation": dict(
